@@ -480,6 +480,33 @@ func vkLowerRdataNames(r dns.RR) {
 		x.Target = vkFqdnLower(x.Target)
 	case *dns.DNAME:
 		x.Target = vkFqdnLower(x.Target)
+	// the rest of the RFC 4034 6.2 list (RFC 6840 5.1 takes NSEC out; the library leaves RRSIG's signer as is)
+	case *dns.MD:
+		x.Md = vkFqdnLower(x.Md)
+	case *dns.MF:
+		x.Mf = vkFqdnLower(x.Mf)
+	case *dns.MB:
+		x.Mb = vkFqdnLower(x.Mb)
+	case *dns.MG:
+		x.Mg = vkFqdnLower(x.Mg)
+	case *dns.MR:
+		x.Mr = vkFqdnLower(x.Mr)
+	case *dns.MINFO:
+		x.Rmail, x.Email = vkFqdnLower(x.Rmail), vkFqdnLower(x.Email)
+	case *dns.RP:
+		x.Mbox, x.Txt = vkFqdnLower(x.Mbox), vkFqdnLower(x.Txt)
+	case *dns.AFSDB:
+		x.Hostname = vkFqdnLower(x.Hostname)
+	case *dns.RT:
+		x.Host = vkFqdnLower(x.Host)
+	case *dns.SIG:
+		x.SignerName = vkFqdnLower(x.SignerName)
+	case *dns.PX:
+		x.Map822, x.Mapx400 = vkFqdnLower(x.Map822), vkFqdnLower(x.Mapx400)
+	case *dns.NAPTR:
+		x.Replacement = vkFqdnLower(x.Replacement)
+	case *dns.KX:
+		x.Exchanger = vkFqdnLower(x.Exchanger)
 	}
 }
 
